@@ -134,6 +134,21 @@ class Runner:
                 mod = None
             target_by_name = None if mod is None else mod.name
         elif name == "connect":
+            # a stray call first: pins of structures that live in an ENCLOSING solver are not pins of the active one — the
+            # helper must refuse them (it acts on the innermost solver only) and nobody's tables may change
+            act = lk.sol_list[-1]
+            for outer in reversed(lk.sol_list[:-1]):
+                fp = [t for t in outer.free_pins]
+                pair = next(((x, y) for x in fp for y in fp if x[0] is not y[0]), None)
+                if outer is not act and pair is not None:
+                    fp0 = fingerprint(self.sols)
+                    try:
+                        lk.connect(pair[0], pair[1])
+                        self.misdirected = True
+                    except Exception:
+                        if fingerprint(self.sols) != fp0:
+                            self.misdirected = True
+                    break
             a = uwg(tag).put()
             b = uwg(f"{tag}x").put()
             lk.connect(a.pin[f"b{tag}"], b.pin[f"a{tag}x"])
